@@ -38,7 +38,7 @@ func init() {
 		modes: func(tier string, seed int64) []modeSpec {
 			a, b := 16000, 600
 			if tier == "thorough" {
-				a, b = 400000, 12000
+				a, b = 1000000, 24000
 			}
 			return []modeSpec{
 				{name: "raw", n: a, perChild: a / 16, parallel: 8, timeout: 30 * time.Minute, env: []string{"VERIF_HOOK=trace", "VERIF_HOOK_PROB=30", "VERIF_HOOK_MAXUS=30"}},
